@@ -3,7 +3,7 @@
    the identical node; token-level exactness; introduce_variables / apply_simp.
    Proofs (and the definitions clean, toks, spec_toks, subnodes_l) are in
    Proofs/Subst. *)
-From DD Require Import Model.Subst Spec.StdReader.
+From DD Require Import Base.Lit Model.Subst Spec.StdReader.
 From DD Require Import Proofs.Subst.SubstBase Proofs.Subst.SubstMachine
   Proofs.Subst.SubstIdentity Proofs.Subst.SubstTokens Proofs.Subst.SubstClosed
   Proofs.Subst.IntroVars.
@@ -94,6 +94,21 @@ Theorem introduce_variables_spec : forall l vars,
     match post with x :: _ => is_prefix_cmd x = false | [] => True end.
 Proof. exact introduce_variables_spec_proof. Qed.
 Print Assumptions introduce_variables_spec.
+
+(* F70: comments before (and between) the leading set-info / set-logic commands belong to the prefix *)
+Theorem introduce_variables_skips_header_comments : forall i s rest vars,
+  introduce_variables (NL i (59%N :: s) :: rest) vars = NL i (59%N :: s) :: introduce_variables rest vars.
+Proof. exact introduce_variables_skips_header_comments_proof. Qed.
+Print Assumptions introduce_variables_skips_header_comments.
+
+Example introduce_variables_header_comment :
+  let header := NL 1 (lit "; header") in
+  let setlogic := NT 4 0 [NL 2 (lit "set-logic"); NL 3 (lit "X")] in
+  let decl := NT 8 0 [NL 5 (lit "declare-const"); NL 6 (lit "a"); NL 7 (lit "Bool")] in
+  let var := NT 12 0 [NL 9 (lit "declare-const"); NL 10 (lit "v"); NL 11 (lit "Bool")] in
+  introduce_variables [header; setlogic; decl] [var] = [header; setlogic; var; decl].
+Proof. exact introduce_variables_header_comment_ex. Qed.
+Print Assumptions introduce_variables_header_comment.
 
 Theorem apply_simp_spec : forall hstr htup l ri rs vars next ch r nx,
   substitute hstr htup l ri rs next = (ch, r, nx) ->
